@@ -13,6 +13,7 @@ type checkDef struct {
 }
 
 var registry = map[string]checkDef{
+	"C01": {"exploration", C01},
 	"C02": {"exploration", C02},
 	"C03": {"exploration", C03},
 	"C04": {"exploration", C04},
@@ -23,6 +24,7 @@ var registry = map[string]checkDef{
 	"C09": {"exploration", C09},
 	"C10": {"exploration", C10},
 	"C11": {"exploration", C11},
+	"C12": {"exploration", C12},
 	"C13": {"fault_enumeration", C13},
 	"C14": {"exploration", C14},
 	"C16": {"exploration", C16},
